@@ -319,6 +319,7 @@ def check(F, rep):
             tests.append(Test(b, su, fa, 0, "bool", False, None))
         okb = any(requires(dfb, g16[0][0], [t]) for t in tests) and len(g8) == 1 and dfb.dominates(g8[0][0], g16[0][0])
     rep.ob("batch", okb, site(dfb), "Datagrams::from_bytes: ECN byte first, u16 segment size read iff is_batch", DG + "|read-seg")
+    decoder_totality(F, rep, dfb)
     for enum in (R2C, C2R):
         f = get_fn(F, rep, enum + "::from_bytes")
         c = find_calls(f, DG + "::from_bytes")
@@ -451,3 +452,107 @@ def size_check(F, g, kind, len_fn):
     if not all(requires(g, sb, ts) for sb in sinks):
         return False, "success continuation not guarded by the size check"
     return True, "ok"
+
+
+def decoder_totality(F, rep, f):
+    """Datagrams::from_bytes never reads past the end: `get_u8` needs 1 byte, the batch's
+    `get_u16` 2 more.  For every (is_batch, len) with len in 0..=4 the blocks reachable are
+    computed with the `is_batch` branches and every `bytes.len() <op> <number>` test resolved
+    (the number may be a constant or a small expression of constants and is_batch); the reads
+    must be unreachable whenever the buffer is too short - whatever idiom performs the check."""
+    from ..analysis import reachable_fs
+    OPS = {"Eq": lambda a, b: a == b, "Ne": lambda a, b: a != b, "Lt": lambda a, b: a < b,
+           "Le": lambda a, b: a <= b, "Gt": lambda a, b: a > b, "Ge": lambda a, b: a >= b}
+    g8 = find_calls(f, regex=r"Buf::get_u8$")
+    g16 = find_calls(f, regex=r"Buf::get_u16$")
+    rep.exact("totality", "get_u8 / get_u16 reads in Datagrams::from_bytes", (len(g8), len(g16)), (1, 1))
+    if not (g8 and g16):
+        return
+
+    def is_len(o):
+        l = op_base(o)
+        dc = def_call(f, l) if l is not None else None
+        if dc is None or not call_matches(dc[1], r"Bytes::len$"):
+            return False
+        # the length is taken before anything was consumed
+        return not any(dc[0] in f.reachable(b) for b, t in g8 + g16) and arg_ref_target(f, dc[1]["args"][0]) == 1
+
+    def batch_edges(is_batch):
+        rem = set()
+        for b in sorted(f.reachable(0)):
+            t = f.blocks[b]["t"]
+            if t["k"] == "switch" and t["d"]["k"] in ("copy", "move") and not t["d"]["p"].get("p"):
+                x = copy_sources(f, t["d"]["p"]["l"])
+                if x == {("arg", 2, ())}:
+                    explicit = {int(v): tb for v, tb in t["targets"]}
+                    hit = explicit.get(1 if is_batch else 0, t["otherwise"])
+                    for tb in list(explicit.values()) + [t["otherwise"]]:
+                        if tb != hit:
+                            rem.add((b, tb))
+        return rem
+
+    def num(o, is_batch, base_reach, depth=0):
+        if depth > 8:
+            return None
+        c = const_int(F, o)
+        if c is not None:
+            return c
+        if o["k"] == "const":
+            return None
+        pl = o["p"]
+        l = pl["l"]
+        if copy_sources(f, l) == {("arg", 2, ())} and not pl.get("p"):
+            return 1 if is_batch else 0
+        vals = set()
+        for b, i, st in f.stmts():
+            if st["k"] != "a" or st["lhs"] != {"l": l} or b not in base_reach:
+                continue
+            rv = st["rv"]
+            if rv["k"] in ("use", "cast"):
+                src = rv["o"]
+                if pl.get("p") and src["k"] in ("copy", "move"):
+                    return None
+                vals.add(num(src, is_batch, base_reach, depth + 1))
+            elif rv["k"] == "bin" and rv["op"] in ("Add", "AddWithOverflow", "AddUnchecked"):
+                x, y = num(rv["a"], is_batch, base_reach, depth + 1), num(rv["b"], is_batch, base_reach, depth + 1)
+                vals.add(None if x is None or y is None else x + y)
+            else:
+                vals.add(None)
+        for b, t in f.calls():
+            if t["dest"] == {"l": l} and b in base_reach:
+                if call_matches(t, r"convert::(From::from|Into::into)$") and len(t["args"]) == 1:
+                    vals.add(num(t["args"][0], is_batch, base_reach, depth + 1))
+                else:
+                    vals.add(None)
+        if pl.get("p") and [e[0] for e in pl["p"]] == ["f"] and pl["p"][0][1] == 0:
+            pass            # `(x, overflow).0` of a checked add: same number
+        return next(iter(vals)) if len(vals) == 1 else None
+    bad, ntests = [], 0
+    for is_batch in (False, True):
+        rem0 = batch_edges(is_batch)
+        base_reach = reachable_fs(f, 0, removed_edges=rem0)
+        for length in range(0, 5):
+            rem = set(rem0)
+            for cb, st, ts in cmp_tests(f):
+                a, b_ = st["rv"]["a"], st["rv"]["b"]
+                if is_len(a):
+                    v = num(b_, is_batch, base_reach)
+                    truth = None if v is None else OPS[st["rv"]["op"]](length, v)
+                elif is_len(b_):
+                    v = num(a, is_batch, base_reach)
+                    truth = None if v is None else OPS[st["rv"]["op"]](v, length)
+                else:
+                    continue
+                if truth is None:
+                    continue
+                ntests += 1
+                for t in ts:
+                    rem.update(t.failure if truth else t.success)
+            reach = reachable_fs(f, 0, removed_edges=rem)
+            if length < 1 and g8[0][0] in reach:
+                bad.append("is_batch=%s len=%d: get_u8 reachable" % (is_batch, length))
+            if is_batch and length < 3 and g16[0][0] in reach:
+                bad.append("is_batch=true len=%d: get_u16 reachable (panics: only %d byte(s) left after the ECN byte)" % (length, max(length - 1, 0)))
+            if is_batch and length >= 3 and g16[0][0] not in reach:
+                bad.append("is_batch=true len=%d: get_u16 not reachable" % length)
+    rep.ob("totality", not bad and ntests > 0, site(f, g16[0][0]), "Datagrams::from_bytes never reads past the end of the frame for any (is_batch, length 0..=4) - decoding stays total (no panic on short input); %d length tests evaluated; problems: %s" % (ntests, bad[:3]), DG + "|no-short-read")
